@@ -158,7 +158,7 @@ example (F : Fmts) :
   rw [this.2.2.2.2.2]
   decide
 
-theorem toString'_eq (F : Fmts) (p : Parser) (mem : Option (Array UInt8)) (size : Nat) :
+theorem toString_unfold (F : Fmts) (p : Parser) (mem : Option (Array UInt8)) (size : Nat) :
     toString' F p mem size =
       (if (verify p).2.1 && !(toStringFold F p.buf (ts0 (mem.getD #[]) (if mem.isNone then 0 else size)) (verify p).2.2).full then
         ((verify p).1, true, (toStringFold F p.buf (ts0 (mem.getD #[]) (if mem.isNone then 0 else size)) (verify p).2.2).used,
@@ -192,7 +192,7 @@ theorem to_string_protocol (F : Fmts) (g : Parser) (ha : Alloc g) (hmd : g.maxDe
   refine ⟨?_, ?_, hapi.1⟩
   · intro hcase
     show (toString' F p mem size).2.1 = false ∧ (toString' F p mem size).2.2.1 = n + 1
-    rw [toString'_eq]
+    rw [toString_unfold]
     simp only [hfold, hvt', Bool.true_and]
     cases mem with
     | none =>
@@ -215,7 +215,7 @@ theorem to_string_protocol (F : Fmts) (g : Parser) (ha : Alloc g) (hmd : g.maxDe
     subst hm
     show (toString' F p (some m) size).2.1 = true ∧ (toString' F p (some m) size).2.2.1 = n ∧
       (toString' F p (some m) size).2.2.2.1.toList.take (n + 1) = render F v ++ [0]
-    rw [toString'_eq]
+    rw [toString_unfold]
     simp only [hfold, hvt', Bool.true_and, Option.isNone_some, Bool.false_eq_true, if_false, Option.getD_some]
     have ht := to_string_text F v m size (h m rfl) hs
     have hnf : (toStringFoldV F (ts0 m size) (viewsOf 0 v)).full = false := by
